@@ -36,6 +36,7 @@ const (
 	OpReqCtx
 	OpSetParam
 	OpRespWriteHeader
+	OpYield
 )
 
 // Op is one step of a handler script.
@@ -90,6 +91,8 @@ func (o Op) String() string {
 		return fmt.Sprintf("Params[%s]=%s", o.S, o.S2)
 	case OpRespWriteHeader:
 		return fmt.Sprintf("Resp.WriteHeader(%d)", o.N)
+	case OpYield:
+		return "yield"
 	}
 	return "?"
 }
@@ -147,6 +150,7 @@ type Ctx interface {
 	WithReqCtxValue(k, v string)
 	ReqCtxValue(k string) any
 	ObserveAborted() bool // false: IsAborted is not recorded for this request (K1 exclusion)
+	Yield()               // scheduling point (deterministic scheduler of C03); no-op in the model
 }
 
 // Trace is the event list of one request.
@@ -278,6 +282,8 @@ func Run(s *Script, c Ctx, tr *Trace) {
 			c.WithReqCtxValue(o.S, o.S2)
 		case OpSetParam:
 			c.SetParam(o.S, o.S2)
+		case OpYield:
+			c.Yield()
 		}
 	}
 	if !s.Silent {
@@ -304,6 +310,13 @@ type ctxKey string
 type RCtx struct {
 	C     *rux.Context
 	NoAbt bool
+	Y     func()
+}
+
+func (r *RCtx) Yield() {
+	if r.Y != nil {
+		r.Y()
+	}
 }
 
 func (r *RCtx) Next()                                   { r.C.Next() }
@@ -327,10 +340,10 @@ func (r *RCtx) SetParam(k, v string) {
 	}
 	r.C.Params[k] = v
 }
-func (r *RCtx) WrapResp()                    { r.C.Resp = &wrapWriter{r.C.Resp} }
-func (r *RCtx) WithReqCtxValue(k, v string)  { r.C.WithReqCtxValue(ctxKey(k), v) }
-func (r *RCtx) ReqCtxValue(k string) any     { return r.C.ReqCtxValue(ctxKey(k)) }
-func (r *RCtx) ObserveAborted() bool         { return !r.NoAbt }
+func (r *RCtx) WrapResp()                   { r.C.Resp = &wrapWriter{r.C.Resp} }
+func (r *RCtx) WithReqCtxValue(k, v string) { r.C.WithReqCtxValue(ctxKey(k), v) }
+func (r *RCtx) ReqCtxValue(k string) any    { return r.C.ReqCtxValue(ctxKey(k)) }
+func (r *RCtx) ObserveAborted() bool        { return !r.NoAbt }
 
 // ---------------------------------------------------------------- model context
 
@@ -409,3 +422,4 @@ func (m *MCtx) ReqCtxValue(k string) any {
 	return nil
 }
 func (m *MCtx) ObserveAborted() bool { return !m.NoAbt }
+func (m *MCtx) Yield()               {}
